@@ -221,6 +221,13 @@ def step (line : String) : String :=
       let fs := if kind = "file" then encodeMsgFile pc mx cmd data else encodeMsg pc mx cmd data
       " ".intercalate (fs.map fragText)
     | _, _, _, _ => "bad-op"
+  | ["fragn", kind, pc, n, cmd, data] =>
+    -- the stream for an explicit fragment size (an implementation may choose any size that fits)
+    match pc.toNat?, n.toNat?, hexToBytes cmd, (if data = "none" then some none else (hexToBytes data).map some) with
+    | some pc, some n, some cmd, some data =>
+      let fs := if kind = "file" then encodeMsgFileN pc n cmd data else encodeMsgN pc n cmd data
+      " ".intercalate (fs.map fragText)
+    | _, _, _, _ => "bad-op"
   | "dec" :: noDs :: groups =>
     match (groups.mapM fun g => (g.splitOn ",").mapM parseFrag) with
     | some gs => " ".intercalate (decTrace (noDs = "1") {} gs)
